@@ -478,6 +478,23 @@ def _random_problem(R, cfgname):
     return [G(m, n, s)]
 
 
+# attributes that mirror a constructor argument one-to-one (safe to re-assign between calls)
+RECONFIG = {
+    "solver.QGMRESSolver": [("tol", [1e-4, 1e-10]), ("max_iter", [None, 1, 3]), ("preconditioner", ["none", "left_lu"]),
+                            ("verbose", [True, False])],
+    "solver.RandomizedSketchProjectPseudoinverse": [("tol", [1e-3, 1e-8]), ("max_iter", [5, 30]), ("block_size", [1, 3, 16]),
+                                                    ("test_sketch_size", [2, 8]), ("column_solver", ["qr", "spd"]),
+                                                    ("verbose", [True, False])],
+    "solver.HybridRSPNewtonSchulz": [("tol", [1e-3, 1e-9]), ("max_iter", [4, 20]), ("r", [1, 3]), ("p", [2, 4]), ("T", [1, 3]),
+                                     ("column_solver", ["qr", "spd"])],
+    "solver.CGNEQSolver": [("tol", [1e-3, 1e-10]), ("max_iter", [3, 50]), ("verbose", [True, False])],
+    "solver.NewtonSchulzPseudoinverse": [("gamma", [0.5, 1.0]), ("max_iter", [3, 20]), ("tol", [1e-3, 1e-10]),
+                                         ("compute_residuals", [True, False])],
+    "solver.HigherOrderNewtonSchulzPseudoinverse": [("max_iter", [2, 10]), ("tol", [0.0, 1e-6])],
+    "solver.DeepLinearNewtonSchulz": [("max_iter", [1, 3]), ("inner_iterations", [1, 2]), ("random_init", [True, False])],
+}
+
+
 def gen_random(seed, world, tier):
     R = sub_rng(seed, "C14")
     nclients = R.randint(1, 3)
@@ -532,6 +549,9 @@ def gen_random(seed, world, tier):
                 if R.random() < 0.3:   # an event between construction and call
                     steps.append({"k": "rng", "op": R.choice(["draw", "seed"]), "n": R.randint(1, 30),
                                   "v": R.randrange(1000), "client": (client + 1) % nclients})
+            elif R.random() < 0.12 and cls in RECONFIG:
+                attr, vals = R.choice(RECONFIG[cls])
+                steps.append({"k": "setattr", "obj": f"s{oi}", "attr": attr, "v": R.choice(vals), "client": client})
             st = {"k": "call", "obj": f"s{oi}", "meth": meth, "args": _random_problem(R, cname),
                   "client": client, "cfgname": cname}
             if R.random() < 0.2:
